@@ -564,7 +564,7 @@ Proof.
 Qed.
 
 Lemma final_edges_filter : forall ns pv p ps es, final_edges ns pv ps = Some es -> NoDup ps ->
-  filter (tgt ns p) (rev es) = if in_dec Nat.eq_dec p ps then fe ns pv p else [].
+  filter (tgt ns p) (rev es) = if mem p ps then fe ns pv p else [].
 Proof.
   induction ps as [|p' r IH]; intros es H ND; simpl in H.
   - inversion H. reflexivity.
@@ -574,15 +574,10 @@ Proof.
     inversion ND; subst. rewrite rev_app_distr, filter_app, (IH b eq_refl H3).
     assert (RV : rev (fe ns pv p') = fe ns pv p').
     { unfold fe. destruct (lookup p' pv); auto. destruct (output_of ns p'); auto. }
-    rewrite RV, filter_fe.
+    rewrite RV, filter_fe. simpl mem. rewrite (Nat.eqb_sym p p').
     destruct (Nat.eqb p' p) eqn:EQ.
-    + apply Nat.eqb_eq in EQ. subst p'.
-      destruct (in_dec Nat.eq_dec p r); [contradiction|].
-      destruct (in_dec Nat.eq_dec p (p :: r)) as [_|N]; [apply app_nil_r|exfalso; apply N; left; auto].
-    + apply Nat.eqb_neq in EQ. simpl.
-      destruct (in_dec Nat.eq_dec p r) as [Hi|Hn]; destruct (in_dec Nat.eq_dec p (p' :: r)) as [Hi'|Hn']; auto.
-      * exfalso. apply Hn'. right; auto.
-      * exfalso. destruct Hi'; [congruence|contradiction].
+    + apply Nat.eqb_eq in EQ. subst p'. apply mem_false in H2. rewrite H2. simpl. apply app_nil_r.
+    + simpl. reflexivity.
 Qed.
 
 Lemma final_edges_out : forall ns pv ps es p last, final_edges ns pv ps = Some es -> In p ps ->
@@ -613,8 +608,8 @@ Proof.
   { destruct WFW as (PLW & _ & _). rewrite N in PLW. apply parents_lt_prefix in PLW.
     assert (E0 : forall q, E (mkSt (nodes s0) [] (edges s0)) q = []).
     { intros q. unfold E, ctx_events, events_range, eff_leaves, start. simpl. rewrite Nat.sub_diag. reflexivity. }
-    repeat split; simpl; auto.
-    - intros q. rewrite E0. simpl. split; auto. intros _ Pq. repeat split; auto. congruence.
+    split; [exact PLW|]. split; [unfold start; simpl; lia|]. split; [simpl; exact HE0|]. split.
+    - intros q. rewrite E0. split; [reflexivity|]. intros _ Pq. split; [reflexivity|]. split; [exact Pq|congruence].
     - intros r NE. rewrite E0 in NE. congruence. }
   pose proof (add_all_G _ _ _ A G0 WFW HD HL) as (PL & SL & HE & I & C).
   destruct (I p) as [_ B]. destruct (B L Pp) as (B1 & B2 & B3).
@@ -622,7 +617,8 @@ Proof.
   rewrite region_edges_tgt. simpl. rewrite rev_app_distr, filter_app.
   rewrite <- region_edges_tgt, B2.
   rewrite (final_edges_filter _ _ p _ _ F (seq_NoDup _ _)).
-  destruct (in_dec Nat.eq_dec p (seq 0 (length (nodes s)))) as [Hin|Hn]; [|exfalso; apply Hn, in_seq; lia].
+  assert (Hin : In p (seq 0 (length (nodes s)))) by (apply in_seq; lia).
+  rewrite (proj2 (mem_In p _) Hin).
   unfold expected_edges, ctx_chain. fold (E s p).
   destruct (nodup_first (E s p)) as [|c0 ch] eqn:CH.
   - unfold fe. rewrite B1. reflexivity.
